@@ -5,6 +5,8 @@
 import PCV.Proofs.IPA
 import PCV.Props.Examples
 
+set_option linter.unusedSectionVars false
+
 namespace PCV.C01
 open PCV
 variable {F : Type} [Field F] [DecidableEq F]
